@@ -21,6 +21,7 @@ func init() {
 			"R4 the entry of a key is deleted only in the select case that received that key from such a channel, every sender on these channels is the exit goroutine (after its run returned) or a case forwarding its received key, and the map is never cleared or replaced; " +
 			"R5 every nil return of the scan after a successful listing has completed the loop over the map that stops each client whose key is not in the set of listed keys (and only those), and every listed key enters that set; " +
 			"R7 every single-argument function the listing passes through before the start loop (and inside the listing helper) is the identity or a keyed de-duplication whose key includes every field of the manager's map key (Parent and ID), so a node keeps one entry per parent it appears under; " +
+			"R8 the node handed to the client-state constructor is an element of a listing fetched in the same scan/restart activation (followed through the scan/update split into the callers), never the node kept in an existing client state, a manager field or a package variable; " +
 			"R6 the stop channel of a client state is closed only inside sync.Once.Do of the same state, the manager's stop case stops every map value unless the map is empty, the main loop is left only with an empty map or in the guard-timer case, and the client state's run returns only after the stop request was received and forwarded to the client. " +
 			"Interleavings of store events with scans, construction from current points and the 5 s stop time-outs are not decided.",
 		Assumptions: []string{
@@ -44,6 +45,7 @@ func runC07(c *kit.Ctx) {
 	c07R5(c, m, c.Rule("R5", "removal pass reached and exact", 3))
 	c07R6(c, m, c.Rule("R6", "stop idempotent and complete", 5))
 	c07R7(c, m, c.Rule("R7", "the listing keeps one entry per placement", 2))
+	c07R8(c, m, c.Rule("R8", "a client is constructed from a node fetched in the same activation", 1))
 }
 
 func (m *cmModel) exitNames() string {
@@ -922,11 +924,11 @@ func c07R5(c *kit.Ctx, m *cmModel, r *kit.Rule) {
 			r.Ob(f, sto.stmt, "start loop", "the insertion happens in a loop over the listing").Undecided("the map store is not inside a range loop")
 			continue
 		}
-		// listing call: followed back from the ranged variable through single-argument functions (R7 judges those)
-		chain := c07ListingChain(f, sto.loop)
-		listCall := chain.listCall
-		if listCall == nil {
-			r.Ob(f, sto.loop, "listing", "the start loop ranges over the result of one listing call").Undecided("%s", c07Nz(chain.undec, "cannot find the call that produces `"+f.Str(sto.loop.X)+"`"))
+		// activations: the listing is produced in this function, or handed in by the callers
+		// (scan/update split); R7 judges the functions it passes through
+		acts, actUndec := c07Activations(c, f, sto.loop)
+		if actUndec != "" {
+			r.Ob(f, sto.loop, "listing", "the start loop ranges over the result of a listing call of this function or of its callers").Undecided("%s", actUndec)
 			continue
 		}
 		// removal loop: range over the map whose body calls stop on the value
@@ -1031,8 +1033,10 @@ func c07R5(c *kit.Ctx, m *cmModel, r *kit.Rule) {
 
 		st := &kit.Std{F: f}
 		st.ErrTag = func(call *ast.CallExpr, s kit.S) string {
-			if call == listCall {
-				return "list"
+			for _, a := range acts {
+				if a.caller == nil && call == a.chain.listCall {
+					return "list"
+				}
 			}
 			return ""
 		}
@@ -1109,57 +1113,90 @@ func c07R5(c *kit.Ctx, m *cmModel, r *kit.Rule) {
 			}
 			return nil, nil, false
 		}
-		res := c.P.Graph(f).Run(kit.NewS(), st.Client())
-		if res.Overflow {
-			c.Fatalf("R5: state overflow in %s", f.Name)
-		}
-		// (1) nil exits after a successful listing
+		// (1) nil exits after a successful listing, per activation
 		type verdict struct {
 			bad  string
 			exit kit.Exit
-			rn   string
 		}
-		per := map[*ast.ReturnStmt]*verdict{}
-		var order []*ast.ReturnStmt
-		for _, e := range res.Exits {
-			if e.Return == nil || e.State.Get("listed") != "1" {
-				continue
-			}
-			rn := st.ReturnsNil(e.Return, e.State)
-			if rn == "nonnil" {
-				continue
-			}
-			v := per[e.Return]
-			if v == nil {
-				v = &verdict{rn: rn}
-				per[e.Return] = v
-				order = append(order, e.Return)
-			}
-			if e.State.Get("removed") != "1" && v.bad == "" {
-				switch {
-				case rem == nil:
-					v.bad = "there is no loop over the client-state map that stops the clients whose key was not listed"
-				case e.State.Has("rit"):
-					v.bad = "the removal loop is left early (return or break inside the loop); the remaining clients of vanished nodes keep running"
-				default:
-					v.bad = "returns success without having run the loop that stops clients whose node was not listed: the client of a node that vanished keeps running"
+		anyPrunes := false
+		for _, act := range acts {
+			init := kit.NewS()
+			label := ""
+			if act.caller != nil {
+				// the callers list (and test the error) before handing the listing in
+				init = init.Set("listed", "1")
+				for po, v := range act.consts {
+					init = init.Set("v:"+kit.VarID(po), v)
 				}
-				v.exit = e
+				label = "activation " + act.label + ": "
+			}
+			res := c.P.Graph(f).Run(init, st.Client())
+			if res.Overflow {
+				c.Fatalf("R5: state overflow in %s", f.Name)
+			}
+			per := map[*ast.ReturnStmt]*verdict{}
+			var order []*ast.ReturnStmt
+			nRemoved := 0
+			for _, e := range res.Exits {
+				if e.Return == nil || e.State.Get("listed") != "1" {
+					continue
+				}
+				if st.ReturnsNil(e.Return, e.State) == "nonnil" {
+					continue
+				}
+				v := per[e.Return]
+				if v == nil {
+					v = &verdict{}
+					per[e.Return] = v
+					order = append(order, e.Return)
+				}
+				if e.State.Get("removed") == "1" {
+					nRemoved++
+				} else if v.bad == "" {
+					switch {
+					case rem == nil:
+						v.bad = "there is no loop over the client-state map that stops the clients whose key was not listed"
+					case e.State.Has("rit"):
+						v.bad = "the removal loop is left early (return or break inside the loop); the remaining clients of vanished nodes keep running"
+					default:
+						v.bad = "returns success without having run the loop that stops clients whose node was not listed: the client of a node that vanished keeps running"
+					}
+					v.exit = e
+				}
+			}
+			if len(order) == 0 {
+				r.Ob(f, nil, label+"nil exits", "the scan has a success exit").Undecided("no exit returning nil after a successful listing was found")
+				continue
+			}
+			nBad := 0
+			for _, ret := range order {
+				if per[ret].bad != "" {
+					nBad++
+				}
+			}
+			if len(acts) > 1 && nRemoved == 0 && nBad == len(order) {
+				// an activation that never prunes (a partial listing handed in by a caller): allowed as long as another activation prunes
+				r.Ob(f, act.call, label+"no removal", "an activation either completes the removal loop before every success exit or never enters it").
+					OK("never reaches the removal loop (%s)", c07ConstsStr(act))
+				continue
+			}
+			anyPrunes = anyPrunes || nBad == 0
+			for _, ret := range order {
+				v := per[ret]
+				o := r.Ob(f, ret, label+"exit "+retKey(f, ret), "after a successful listing, success is returned only once the removal loop has completed")
+				if v.bad != "" {
+					o.Violation("%s", v.bad).WithPath(res.PathTo(v.exit))
+				} else {
+					o.OK("removal loop completed before this exit")
+				}
 			}
 		}
-		if len(order) == 0 {
-			r.Ob(f, nil, "nil exits", "the scan has a success exit").Undecided("no exit returning nil after a successful listing was found")
-		}
-		for _, ret := range order {
-			v := per[ret]
-			o := r.Ob(f, ret, "exit "+retKey(f, ret), "after a successful listing, success is returned only once the removal loop has completed")
-			switch {
-			case v.bad != "":
-				o.Violation("%s", v.bad).WithPath(res.PathTo(v.exit))
-			case v.rn == "unknown":
-				o.OK("removal loop completed before this exit")
-			default:
-				o.OK("removal loop completed before this exit")
+		if len(acts) > 1 {
+			o := r.Ob(f, sto.loop, "pruning activation", "at least one activation of the start function completes the removal loop")
+			if anyPrunes {
+				o.OK("an activation completes the removal loop on every success exit")
+			} else {
+				o.Violation("no caller of %s lets it reach the loop that stops the clients of vanished nodes: clients of deleted nodes keep running", f.Name)
 			}
 		}
 		// (2) removal loop iterations
